@@ -159,6 +159,11 @@ pub fn observe(case: &HistoryCase) -> Result<Obs, ObsError> {
 
 pub fn extract_tree(out: &str) -> Result<(Vec<RStruct>, ENode), String> {
     let structs = extract::parse_rendered(out)?;
+    // a struct or a field type without a name is no struct definition for any position (the line grammar
+    // itself lets an empty word through so that C04 can name the defect)
+    if structs.iter().any(|s| s.name.is_empty() || s.fields.iter().any(|f| f.base.is_empty() || f.ident.is_empty())) {
+        return Err("line grammar, a struct, field or field type has an empty name".into());
+    }
     let tree = extract::build_tree(&structs, "@", "$text")?;
     Ok((structs, tree))
 }
@@ -1466,6 +1471,17 @@ pub fn magnitude_cases(seed: u64, thorough: bool) -> Vec<HistoryCase> {
         }
         push(format!("M3-attributes-{}-absent-{}", m, agone), vec![doc(el("r", vec![a.clone(), b.clone()]))]);
         push(format!("M3-attributes-{}-absent-{}-later-doc", m, agone), vec![doc(a), doc(b)]);
+    }
+    // M3b: every width 2..=130 — the last distinct child occurs exactly twice (and, for widths <= 40, every
+    // position in turn): a container that changes representation at some width shows at exactly one m
+    for m in 2usize..=130 {
+        let kids = |upto: usize| -> Vec<Elem> { (0..upto).map(|i| Elem::new(&format!("c{}", i))).collect() };
+        let positions: Vec<usize> = if m <= 40 { (0..m).collect() } else { vec![m - 1] };
+        for pos in positions {
+            let mut k1 = kids(m);
+            k1.push(Elem::new(&format!("c{}", pos)));
+            push(format!("M3b-width-{}-twice-{}", m, pos), vec![doc(el("wide", k1))]);
+        }
     }
     // M4: chains of depth D (bounded by the property's depth 200)
     for d in magnitudes(&mut r, &[5, 6, 10, 11, 20, 25, 40, 50, 75, 99, 100, 101, 150, 199], 3, 199, k) {
